@@ -450,6 +450,26 @@ pub fn axis_b_depth1() -> Vec<Snip> {
             }
         }
     }
+    // two corners of the arithmetic that the implementation is known to get wrong (open findings F-C01-2 / F-C01-3):
+    // comparisons of numbers closer together than 0.00001, and a whole quotient used in further arithmetic
+    for (k, (l, op, r)) in [(".00000762939453125#", BinOp::Gt, "0"), (".00000762939453125#", BinOp::Eq, "0"), ("1.00000762939453125#", BinOp::Gt, "1"), (".00000762939453125", BinOp::Ne, "0")].into_iter().enumerate() {
+        let mut b = B::new();
+        let v = if l.ends_with('#') { "CL#" } else { "CL!" };
+        let stmts = vec![b.assign(var(v), Expr::Num(l.to_string())), b.print(vec![bin(op, var(v), Expr::Num(r.to_string()))])];
+        out.push(Snip { stmts, label: format!("comparison below the tolerance #{}", k), ill_typed: false });
+    }
+    for (k, e) in [
+        bin(BinOp::Mul, bin(BinOp::Div, num(6), num(2)), num(20000)),
+        bin(BinOp::Add, bin(BinOp::Div, num(6), num(2)), num(32767)),
+        bin(BinOp::Mul, Expr::Paren(Box::new(bin(BinOp::Div, Expr::Num("4.0#".into()), Expr::Num("2.0#".into())))), num(20000)),
+    ]
+    .into_iter()
+    .enumerate()
+    {
+        let mut b = B::new();
+        let stmts = vec![b.print(vec![e])];
+        out.push(Snip { stmts, label: format!("whole quotient in further arithmetic #{}", k), ill_typed: false });
+    }
     // unary operators
     for t in Ty::ALL {
         for v in value_menu(t) {
